@@ -188,8 +188,51 @@ class YieldingIO(io.BytesIO):
         return super().write(b)
 
 
-def new_file(data=b''):
-    return YieldingIO(data) if THREADED else io.BytesIO(data)
+class PipeLike(io.BytesIO):
+    """What a pipe, a socket file or a piped stdin / stdout looks like to the library: sequential transfers only.
+    tell() and seek() exist and raise, there is no descriptor; reads are complete until the data end (as through a
+    BufferedReader).  Whatever the library raises from a rewind it cannot perform, the BYTES that went through are judged."""
+
+    def seekable(self):
+        return False
+
+    def seek(self, *a):
+        raise io.UnsupportedOperation('underlying stream is not seekable')
+
+    def tell(self):
+        raise OSError(29, 'Illegal seek')
+
+    def fileno(self):
+        raise io.UnsupportedOperation('fileno')
+
+    def truncate(self, *a):
+        raise io.UnsupportedOperation('truncate')
+
+    def close(self):
+        self.closed_value = self.getvalue()
+        super().close()
+
+
+class SizedIO(io.BytesIO):
+    """a buffer object that reports its size through len() - empty (and therefore falsy) when it is handed over"""
+
+    def __len__(self):
+        return self.getbuffer().nbytes
+
+
+def pick(n, *key):
+    import zlib
+    return zlib.crc32(repr(key).encode()) % n
+
+
+def new_file(data=b'', kind=None):
+    if THREADED:
+        return YieldingIO(data)
+    if kind == 'pipe':
+        return PipeLike(data)
+    if kind == 'sized':
+        return SizedIO(data)
+    return io.BytesIO(data)
 
 
 class KeepOpen(io.BytesIO):
@@ -212,8 +255,27 @@ def run_blocker(chunks, finaliser, hazards=False):
         return _run_blocker(chunks, finaliser, hazards)
 
 
+HEADERS = (b'SITE-HEADER-14', b'#' * 100, b'@' * 1014 + b'job 4711\n')
+
+
 def _run_blocker(chunks, finaliser, hazards):
-    f = KeepOpenYielding() if THREADED else KeepOpen()
+    kind = 0 if THREADED else pick(7, 'blkfile', [len(c) for c in chunks[:6]], finaliser)
+    header = b''
+    if kind == 3:
+        f = PipeLike()                       # an output that cannot be rewound (stdout, a pipe to a transfer program)
+    else:
+        f = KeepOpenYielding() if THREADED else KeepOpen()
+        if kind == 5:
+            # the file is handed over positioned behind something the caller wrote first (a transport header; append mode)
+            header = HEADERS[pick(3, 'hdr', len(chunks))]
+            f.write(header)
+    got = _run_blocker_on(f, chunks, finaliser, hazards, kind == 3)
+    if header:
+        return got[len(header):] if got[:len(header)] == header else got
+    return got
+
+
+def _run_blocker_on(f, chunks, finaliser, hazards, pipe):
     b = mciipm.Block1014(f)
     buf = bytearray(max([len(c) for c in chunks] + [1]))
     for i, c in enumerate(chunks):
@@ -231,6 +293,11 @@ def _run_blocker(chunks, finaliser, hazards):
                 pass
     if finaliser == 'finalise':
         b.finalise()
+    elif finaliser == 'seek0' and pipe:
+        try:
+            b.seek(0)                # finalises, then the rewind of the stream fails: that is the stream's business
+        except (OSError, io.UnsupportedOperation):
+            pass
     elif finaliser == 'seek0':
         b.seek(0)
         if (len(chunks) + sum(len(c) for c in chunks[:3])) % 2:
@@ -253,13 +320,36 @@ def run_oneshot_block(data):
 def run_unblocker(blocked, sizes):
     """sizes: list of ints; 0 means read() with no argument. Returns list of returned byte strings."""
     with Env('unblk', len(blocked), sizes[:12]):
-        f = new_file(blocked)
-        u = mciipm.Unblock1014(f)
-        if (len(blocked) + len(sizes)) % 3 == 1:
-            f.seek(0)                # the caller positions the file after wrapping it: nothing has been read yet
-        outs = []
-        for n in sizes:
-            outs.append(u.read() if n == 0 else u.read(n))
+        k200 = pick(200, 'ufile', len(blocked), sizes[:6]) if not THREADED else 0
+        kind = 5 if k200 == 5 else (k200 % 9 if k200 % 9 in (2, 7) else 0)
+        gz = None
+        if kind == 5:
+            import gzip
+            import tempfile
+            fd, gz = tempfile.mkstemp(prefix='ub-', suffix='.gz', dir=os.path.join(os.path.dirname(os.path.dirname(os.path.abspath(__file__))), '.work'))
+            os.close(fd)
+            with gzip.open(gz, 'wb') as zf:
+                zf.write(blocked)
+            f = gzip.open(gz, 'rb')          # fileno() names the compressed file, read()/tell() the uncompressed data
+        elif kind == 2:
+            f = new_file(blocked, kind='pipe')
+        elif kind == 7:
+            hdr = HEADERS[pick(3, 'uhdr', len(blocked))]
+            f = io.BytesIO(hdr + blocked)
+            f.seek(len(hdr))
+        else:
+            f = new_file(blocked)
+        try:
+            u = mciipm.Unblock1014(f)
+            if (len(blocked) + len(sizes)) % 3 == 1 and kind == 0:
+                f.seek(0)                # the caller positions the file after wrapping it: nothing has been read yet
+            outs = []
+            for n in sizes:
+                outs.append(u.read() if n == 0 else u.read(n))
+        finally:
+            if gz:
+                f.close()
+                os.unlink(gz)
     return outs
 
 
@@ -312,6 +402,10 @@ class _Leave(Exception):
     pass
 
 
+class _LeaveBase(BaseException):
+    pass
+
+
 def vbs_write_events(recs, blocked, fins=('close',), api='class', fileobj=None, peek=0):
     """Perform the writer history on the real code. fins: sequence of 'close' / 'exit'
     ('exit' = leaving a `with` block; 'close','exit' = close() inside the block then leaving it).
@@ -329,8 +423,31 @@ def _vbs_write_events(recs, blocked, fins, api, fileobj, peek):
         events.append(ev('fin', 1))
         events.append(ev('file', 0, '', data))
         return events, data
-    f = fileobj if fileobj is not None else new_file()
     fins = list(fins)
+    # what the writer is handed: a plain buffer, a buffer that reports len() == 0, a file positioned behind a header
+    # the caller wrote first (transport header, append mode), or an output that cannot be rewound
+    kind = pick(8, 'wfile', [len(r) for r in recs[:6]], blocked, fins, api) if fileobj is None and not THREADED and api == 'class' else 0
+    header = b''
+    if fileobj is not None:
+        f = fileobj
+    elif kind == 3:
+        f = new_file(kind='sized')
+    elif kind == 5 and 'exit' not in fins:
+        f = new_file()
+        header = HEADERS[pick(3, 'whdr', len(recs))]
+        f.write(header)
+    elif kind == 6 and fins == ['close']:
+        f = new_file(kind='pipe')
+    else:
+        f = new_file()
+    events, data = _vbs_write_history(f, recs, blocked, fins, api, peek, events, isinstance(f, PipeLike))
+    if header and data[:len(header)] == header:
+        data = data[len(header):]
+        events[-1] = ev('file', 0, '', data)
+    return events, data
+
+
+def _vbs_write_history(f, recs, blocked, fins, api, peek, events, pipe):
     if api == 'mixed':
         # the convenience method and the plain method mixed on one writer
         w = mciipm.VbsWriter(f, blocked=blocked)
@@ -386,16 +503,18 @@ def _vbs_write_events(recs, blocked, fins, api, fileobj, peek):
         k = fins.index('exit')
         # every third history leaves the with-block through an exception raised by the caller's own code after the
         # last write (the caller catches it outside): leaving is leaving
-        by_exception = (len(recs) + sum(len(x) for x in recs[:3]) + k) % 3 == 1
+        by_exception = (len(recs) + sum(len(x) for x in recs[:3]) + k) % 3
         try:
             with mciipm.VbsWriter(f, blocked=blocked) as w:
                 for r in recs:
                     w.write(r)
                 for _ in fins[:k]:
                     w.close()
-                if by_exception:
+                if by_exception == 1:
                     raise _Leave()
-        except _Leave:
+                if by_exception == 2 and (len(recs) + k) % 2:
+                    raise _LeaveBase()       # the way sys.exit(), Ctrl-C or a closed generator leave a with-block
+        except (_Leave, _LeaveBase):
             pass
         after = fins[k + 1:]
     else:
@@ -412,10 +531,19 @@ def _vbs_write_events(recs, blocked, fins, api, fileobj, peek):
     for x in after:
         if x == 'exit':
             w.__exit__(None, None, None)
+        elif pipe:
+            try:
+                w.close()            # finalises; the rewind of a pipe fails afterwards - the bytes are what counts
+            except (OSError, io.UnsupportedOperation):
+                pass
         else:
             w.close()
     for x in fins:
         events.append(ev('fin', 1 if x == 'close' else 2))
+    if pipe:
+        data = f.getvalue()
+        events.append(ev('file', 0, '', data))
+        return events, data
     if (len(recs) + len(fins)) % 3 == 1 and f.readable():
         # the finished file is looked at (position off any boundary) and the writer object goes away before it is read
         import gc
@@ -436,6 +564,34 @@ def read_events(data, blocked, make_reader=None, limit=100000, project=None, fil
 
 
 def _read_events(data, blocked, make_reader, limit, project, fileobj):
+    # what the reader is handed: a plain buffer; a stream that cannot seek or tell (pipe, socket, piped stdin); a file
+    # positioned behind a header the caller has already consumed; a gzip file object (its fileno() is the COMPRESSED file)
+    k90 = pick(90, 'rfile', len(data), blocked, bytes(data[:4])) if fileobj is None and not THREADED else 0
+    kind = 5 if k90 == 5 else (k90 % 9 if k90 % 9 in (2, 7) else 0)
+    gz = None
+    if kind == 5:
+        import gzip
+        import tempfile
+        fd, gz = tempfile.mkstemp(prefix='rd-', suffix='.gz', dir=os.path.join(os.path.dirname(os.path.dirname(os.path.abspath(__file__))), '.work'))
+        os.close(fd)
+        with gzip.open(gz, 'wb') as zf:
+            zf.write(data)
+        fileobj = gzip.open(gz, 'rb')
+    elif kind == 2:
+        fileobj = new_file(data, kind='pipe')
+    elif kind == 7:
+        hdr = HEADERS[pick(3, 'rhdr', len(data))]
+        fileobj = io.BytesIO(hdr + data)
+        fileobj.seek(len(hdr))
+    try:
+        return _read_events_on(data, blocked, make_reader, limit, project, fileobj, plain=kind == 0)
+    finally:
+        if gz:
+            fileobj.close()
+            os.unlink(gz)
+
+
+def _read_events_on(data, blocked, make_reader, limit, project, fileobj, plain):
     import zlib
     f = fileobj if fileobj is not None else new_file(data)
     events = []
@@ -501,7 +657,7 @@ def _read_events(data, blocked, make_reader, limit, project, fileobj):
         else:
             loop()
     consume()
-    if style == 4 and not blocked and fileobj is None and state['n'] < limit:
+    if style == 4 and not blocked and fileobj is None and plain and state['n'] < limit:
         # the same reader, rewound with its seek() (forwarded to the file), is read a second time
         try:
             rd.seek(0)
